@@ -3,6 +3,7 @@ package props
 import (
 	"fmt"
 	"github.com/beevik/etree"
+	"time"
 
 	saml2 "github.com/russellhaering/gosaml2"
 	"github.com/russellhaering/gosaml2/types"
@@ -13,7 +14,7 @@ import (
 
 func init() {
 	register(&Prop{ID: "C04", Run: runC04, MinNontrivial: 500,
-		Rule:        "cases = the C01 presentation list (transformer shapes, fuzzed trees, unmodified genuine responses with Response-level and/or assertion-level signatures, plain or encrypted) and the C10 logout list (all signing states), each presented to an SP with signature checking on and to a twin with it off; oracle: (i) an indicator is true only for an element the generator signed with a store key and whose returned fields equal the signed record, (ii) skip => every indicator false, (iii) checking on, accepted, Response indicator false => every returned assertion marked validated, (iv) AssertionInfo.ResponseSignatureValidated == Response.SignatureValidated; non-trivial = accepted by at least one of the twins; distinct by hash of the document and configuration; class nested-signed-assertion-in-advice (signed Response, top-level assertions with and without own signature, signed assertions nested in Advice); shared IDs among the top-level assertions of the nested class; one encrypted top-level assertion among plain ones in the nested class",
+		Rule:        "cases = the C01 presentation list (transformer shapes, fuzzed trees, unmodified genuine responses with Response-level and/or assertion-level signatures, plain or encrypted) and the C10 logout list (all signing states), each presented to an SP with signature checking on and to a twin with it off; oracle: (i) an indicator is true only for an element the generator signed with a store key and whose returned fields equal the signed record, (ii) skip => every indicator false, (iii) checking on, accepted, Response indicator false => every returned assertion marked validated, (iv) AssertionInfo.ResponseSignatureValidated == Response.SignatureValidated; non-trivial = accepted by at least one of the twins; distinct by hash of the document and configuration; class nested-signed-assertion-in-advice (signed Response, top-level assertions with and without own signature, signed assertions nested in Advice); shared IDs among the top-level assertions of the nested class; one encrypted top-level assertion among plain ones in the nested class; class trusted-certificate-outside-validity (signer's certificate expired / not yet valid by 1 s - 48 h at the SP clock, IssueInstant at several distances: no indicator may be true)",
 		Assumptions: []string{"same simulator assumptions as C01/C10"}})
 }
 
@@ -351,6 +352,106 @@ func runC04(c *mon.Ctx) {
 			if d := logoutFieldsEqual(lc.Signed, got); d != "" {
 				cs.Violation("logout-flagged-fields-differ", "marked validated but %s", d)
 			}
+		}
+	}
+
+	// ---- a trusted certificate that is outside its validity period at the SP clock ----
+	// The store holds the signer's certificate, the signature is mathematically fine, the message was issued a moment
+	// ago (while the certificate was, or will be, valid): nothing verifies under C02 at the SP's clock, so no indicator
+	// may be true - whatever the message says about when it was issued.
+	nx := c.N(600, 30000)
+	for k := 0; k < nx; k++ {
+		cs := c.Begin("trusted-certificate-outside-validity", k)
+		if cs == nil {
+			continue
+		}
+		r := cs.Rand()
+		now := w.Now
+		off := pick(r, []time.Duration{time.Second, 30 * time.Second, 2 * time.Minute, 8 * time.Minute, time.Hour, 48 * time.Hour})
+		var cert *sim.Cert
+		expired := r.IntN(3) != 0
+		if expired {
+			cert = sim.Mint(sim.K("idp1"), now.AddDate(-1, 0, 0), now.Add(-off), 61)
+		} else {
+			cert = sim.Mint(sim.K("idp1"), now.Add(off), now.AddDate(1, 0, 0), 62)
+		}
+		issued := now.Add(-pick(r, []time.Duration{0, time.Second, time.Minute, 5 * time.Minute, 9 * time.Minute, 11 * time.Minute, 3 * time.Hour}))
+		if !expired {
+			issued = now.Add(pick(r, []time.Duration{0, time.Second, time.Minute, 9 * time.Minute}))
+		}
+		if r.IntN(3) == 0 {
+			issued = cert.X509.NotAfter.Add(-time.Second) // issued while the certificate was still good
+		}
+		kind := []string{"sso-resp", "sso-assert", "sso-both", "logout-req", "logout-resp"}[k%5]
+		var doc string
+		var err error
+		switch kind {
+		case "logout-req", "logout-resp":
+			l := sim.GenuineLogout(w.Env, kind == "logout-resp")
+			l.IssueInstant = sim.S(sim.TS(issued))
+			l.Sig = randSigSpec(r, cert, true, false)
+			doc, err = sim.BuildLogout(l, sim.PlainStyle())
+		default:
+			rec := sim.GenuineResponse(w.Env, 1+r.IntN(2))
+			rec.IssueInstant = sim.S(sim.TS(issued))
+			for _, a := range rec.Assertions {
+				a.IssueInstant = sim.S(sim.TS(issued))
+				if kind != "sso-resp" {
+					a.Sig = randSigSpec(r, cert, true, false)
+				}
+			}
+			if kind != "sso-assert" {
+				rec.Sig = randSigSpec(r, cert, true, false)
+			}
+			doc, err = sim.BuildResponse(rec, sim.PlainStyle())
+		}
+		if err != nil {
+			cs.Inconclusive("simulator-error")
+			continue
+		}
+		cs.Desc("kind=%s certificate %s by %s, issued %s relative to the clock", kind, map[bool]string{true: "expired", false: "not yet valid"}[expired], off, issued.Sub(now))
+		cs.Input([]byte(doc))
+		cs.Nontrivial(cs.Description())
+		sp, _, _ := NewSP(now, cert)
+		enc := sim.Encode(doc, sim.RawLevel)
+		switch kind {
+		case "logout-req", "logout-resp":
+			var got logoutGot
+			var gerr error
+			pv, _ := mon.Guard(func() { got, gerr = callLogout(sp, kind == "logout-resp", enc) })
+			if pv != nil {
+				cs.Violation("panic", "panic: %v", pv)
+				continue
+			}
+			if gerr == nil && got.flag {
+				cs.Violation("flag-with-certificate-outside-validity", "%s marked validated although the only trusted certificate is %s at the SP clock", kind, map[bool]string{true: "expired", false: "not yet valid"}[expired])
+			}
+			cs.Outcome(fmt.Sprintf("accepted=%v", gerr == nil))
+		default:
+			var resp *types.Response
+			var info *saml2.AssertionInfo
+			var e1, e2 error
+			pv, _ := mon.Guard(func() {
+				resp, e1 = sp.ValidateEncodedResponse(enc)
+				info, e2 = sp.RetrieveAssertionInfo(enc)
+			})
+			if pv != nil {
+				cs.Violation("panic", "panic: %v", pv)
+				continue
+			}
+			flagged := e1 == nil && resp != nil && resp.SignatureValidated
+			if e1 == nil && resp != nil {
+				for i := range resp.Assertions {
+					flagged = flagged || resp.Assertions[i].SignatureValidated
+				}
+			}
+			if e2 == nil && info != nil && info.ResponseSignatureValidated {
+				flagged = true
+			}
+			if flagged {
+				cs.Violation("flag-with-certificate-outside-validity", "%s marked validated although the only trusted certificate is %s at the SP clock", kind, map[bool]string{true: "expired", false: "not yet valid"}[expired])
+			}
+			cs.Outcome(fmt.Sprintf("accepted=%v", e1 == nil))
 		}
 	}
 }
